@@ -117,7 +117,9 @@ def getSetup (j : Json) : Except String Setup := do
     | .ok Json.null => pure none
     | .ok (.str s) => match quotaByName s with
       | some f => pure (some f)
-      | none => throw s!"unknown quota {s}"
+      | none => match parseRat s with          -- `quota.constant(q)`
+        | some r => pure (some (fun _ _ => r))
+        | none => throw s!"unknown quota {s}"
     | _ => throw "quota missing"
   let eq ← j.getObjValAs? Bool "accept_equal"
   let mand ← j.getObjValAs? Bool "mandatory"
